@@ -204,7 +204,7 @@ def undirected_items(tier):
             yield ("U", (3, (2, 5, 7, 11), tuple(tuple(m[v] for v in e) for e in es), "rotated"))
     # order 4
     c4 = [c for r in (2, 3, 4) for c in itertools.combinations(U4, r)]
-    me = 3 if tier == "quick" else len(c4)
+    me = len(c4)  # all 2^11 hypergraphs on four nodes with sizes 2-4 (both tiers)
     for r in range(1, me + 1):
         for es in itertools.combinations(c4, r):
             yield ("U", (4, U4, es, "sorted"))
@@ -272,8 +272,8 @@ def run(ctx):
     cov = {
         "evaluations": ev, "distinct_nontrivial": len(nt), "exhaustive": True, "inputs": len(items), "distinct_outcomes": len(oc),
         "rule": "order 3: hypergraphs over {1,2,3,4} with hyperedges of size 2-3 (all 2^10), variants with hyperedges of size "
-                "1,4,5,6 that must be ignored, non-contiguous labels, reversed/rotated insertion; order 4: hypergraphs over 4 nodes with sizes 2-4 (quick <=3 "
-                "hyperedges, thorough all 2^11) and over 5 nodes (quick: a fixed family of triples, thorough: all with <=3 hyperedges); the census is compared "
+                "1,4,5,6 that must be ignored, non-contiguous labels, reversed/rotated insertion; order 4: hypergraphs over 4 nodes with sizes 2-4 (all 2^11 in "
+                "both tiers) and over 5 nodes (quick: a fixed family of triples, thorough: all with <=3 hyperedges); the census is compared "
                 "class by class with brute force over all node subsets. Directed: all isomorphism classes of directed hypergraphs on 3 nodes (order 3) and "
                 "4 nodes (order 4) within the edge bound, every member of each class must give the same census, every reported pattern must be canonical, a "
                 "larger hyperedge must change nothing. Non-trivial = census with >= 2 motif occurrences (undirected) / non-empty census (directed).",
